@@ -258,6 +258,11 @@ pub struct FnInfo {
     pub ret: Ty,
     /// the body contains a loop (or calls a function that does): leading `fuel : nat` parameter, result in `option`
     pub fuel: bool,
+    /// the body can panic (`panic!`, `assert!`, `unwrap`, slice index, a call of such a function): result in `option`, None = panic
+    /// (no fuel parameter; for a fuelled function None means fuel exhausted or a panic)
+    pub partial: bool,
+    /// the panic sites of the translated body (a fuelled function with panic sites: None = fuel exhausted OR a panic)
+    pub panic_sites: Vec<String>,
 }
 
 /// the marker type of a `PhantomData<..>` field
@@ -266,6 +271,10 @@ pub fn is_phantom(t: &Ty) -> bool {
 }
 
 impl FnInfo {
+    /// the generated definition returns an `option`
+    pub fn opt(&self) -> bool {
+        self.fuel || self.partial
+    }
     pub fn has_mut_params(&self) -> bool {
         self.mut_params.iter().any(|b| *b)
     }
